@@ -240,9 +240,14 @@ def extract_iter(
                 to_unwrap.popleft()
         else:
             # Only inserting new items into the stack trace; next_inner
-            # (if any) is already at the front of `to_unwrap` with its own
-            # depth, so leave it there and don't queue it a second time
+            # (if any) is already at the front of `to_unwrap`, so leave it
+            # there and don't queue it a second time. It must not look
+            # deeper than this frame, though, or a PRUNE issued by one of
+            # the inserted items would remove it along with their callees.
             items = items[:-1]
+            if to_unwrap:
+                next_origin, next_item, next_depth = to_unwrap[0]
+                to_unwrap[0] = (next_origin, next_item, min(depth, next_depth))
         for item in reversed(items):
             to_unwrap.appendleft((better_origin(item, None), item, depth))
 
